@@ -13,7 +13,8 @@ def generate(rng, tier):
             [classifier_panic_trials(rng) for _ in range(60 * k)] + [us_wait_boundary(rng) for _ in range(150 * k)] +
             [random_seq_history(rng, us=True) for _ in range(80 * k)] + [half_open_burst(rng, us=True) for _ in range(80 * k)] +
             [us_wait_boundary(rng, ns=True) for _ in range(120 * k)] + [random_seq_history(rng, us=2) for _ in range(60 * k)] +
-            [half_open_burst(rng, us=2) for _ in range(60 * k)])
+            [half_open_burst(rng, us=2) for _ in range(60 * k)] +
+            [slow_listener(rng) for _ in range(250 * k)])
 
 
 def monitor(s, t):
